@@ -25,6 +25,8 @@ type rtTpl struct {
 	Name string
 	Stmt string // statement(s) with the «failing construct»
 	Top  string // extra top-level text (imports, helper functions)
+	// Mods: further modules of the source set (e.g. the module a type is imported from)
+	Mods map[string]string
 	// Loose: the culprit markers enclose the larger reading (whole statement)
 	Tags []string
 }
@@ -159,6 +161,9 @@ func buildRuntime(t *rtTpl, p rtPayload) (map[string]string, string) {
 	} else {
 		out["main"] = fill(main)
 	}
+	for k, v := range t.Mods {
+		out[k] = v
+	}
 	return out, file
 }
 
@@ -168,6 +173,9 @@ func runtimeCases(tier string, seed uint64) []fw.Case {
 	kfThrow := fw.KFOpen("KF-c08-vm-throw-span-next-instruction")
 	throwPoison := 0
 	for _, t := range rtTemplates {
+		if hasTag(t.Tags, "type-validation") {
+			continue // sampled below
+		}
 		for _, place := range rtPlaces {
 			for _, mode := range []string{"fatal", "caught"} {
 				for li, lay := range diagLayouts {
@@ -196,6 +204,7 @@ func runtimeCases(tier string, seed uint64) []fw.Case {
 			}
 		}
 	}
+	cases = append(cases, validationCases(tier, seed)...)
 	// positions that only have to be well-formed: cancellation and resource limits
 	for _, place := range rtPlaces {
 		for _, mode := range []string{"cancel", "cancel-builtin", "limit"} {
